@@ -18,6 +18,9 @@ CHECKS = {
  "C11": dict(level=MC, design="2/C11", technique="symbolic execution of each public reader/writer on proxy values against bit-level spec formulas (z3 QF_BV); time conversions in integer/real arithmetic with the standard model of IEEE rounding",
    text="One lemma per public primitive reader/writer: the real function runs on solver variables ranging over the whole value domain (all ints of the width, every 6/11-byte varint input, every length region, all whole-millisecond durations/timestamps) and the output is compared with an independently written arithmetic specification; reader-after-writer identity and refusal outside the domain are separate clauses.",
    note="Bounds per lemma are listed in the evidence. Float arithmetic in the time writers is over-approximated by the IEEE standard model (A5): unsat is a proof in the range, sat models are replayed on the real code. Trusted: struct/datetime models, z3."),
+ "C12": dict(level=MC, design="2/C12", technique="symbolic execution of the real Phantom metaclass/predicates on proxy values against a pinned range table (z3 QF_BV; Int/Real standard model for the float-based predicates and writers)",
+   text="isinstance(v, T), T(v) and T.parse(v) of the real Phantom types run on a solver variable v (integers over [-2^100, 2^100], every 64-bit float pattern, every microsecond duration, every microsecond instant with a symbolic fixed offset); membership is compared with a range table pinned in /verif, the nesting chains are implications between the symbolic membership terms, and member => writer accepts and reads back.",
+   note="tzinfo restricted to fixed offsets; non-matching Python types are finite concrete cases. Trusted: datetime/struct models (validated differentially), IEEE standard model for dt.timestamp() and total_seconds(), z3."),
 }
 
 def cmd(i, tier):
